@@ -446,6 +446,7 @@ func unquote(s string) (string, error) {
 // ---------- contract files ----------
 
 type LoopSpec struct {
+	Steps      []*SExpr // transition clauses: checked at the end of every iteration, may use pre(e) = e at its start
 	Invariants []*SExpr
 	Decreases  *SExpr
 	Modifies   []*SExpr
@@ -718,6 +719,12 @@ func parseClause(f *FuncSpec, word, rest string) error {
 				return err
 			}
 			ls.Invariants = append(ls.Invariants, e)
+		case "step":
+			e, err := parseSpecExpr(r3)
+			if err != nil {
+				return err
+			}
+			ls.Steps = append(ls.Steps, e)
 		case "decreases":
 			e, err := parseSpecExpr(r3)
 			if err != nil {
